@@ -568,3 +568,22 @@ impl BoolExt for bool {
         *self
     }
 }
+
+/// Verification hooks: add-only wrappers around the crate-private constructors.
+#[cfg(feature = "verif-hooks")]
+pub mod verif {
+    use super::*;
+
+    pub fn position_new(lookup: &line_col::LineColLookup, offset: usize) -> Position {
+        Position::new(lookup, offset)
+    }
+    pub fn range_new(lookup: &line_col::LineColLookup, start: usize, end: usize) -> Range {
+        Range::new(lookup, start, end)
+    }
+    pub fn bool_is_true(b: &bool) -> bool {
+        BoolExt::is_true(b)
+    }
+    pub fn direction_is_unspecified(d: &Direction) -> bool {
+        d.is_unspecified()
+    }
+}
